@@ -87,6 +87,9 @@ func (m *Manager) StartPipeline(ctx context.Context, pipelineID string) error {
 
 	pipeline, err := m.storage.GetPipeline(ctx, pipelineID)
 	if err != nil {
+		if errors.Is(err, postgres.ErrNotFound) {
+			return ledger.NewErrPipelineNotFound(pipelineID)
+		}
 		return err
 	}
 
